@@ -91,3 +91,8 @@ func VerifC06_KeysAreCopied() {
 	sym.Assert(lm.GetOrCreate([]string{orig, "x"}, func([]string) {}) == 1, "the original tuple still finds its object")
 	sym.Reach("checked")
 }
+
+// VerifC12_KeysOutliveTheRecord: the deep-copy discipline read as record isolation.
+//
+//verif:reach checked
+func VerifC12_KeysOutliveTheRecord() { VerifC06_KeysAreCopied() }
